@@ -58,6 +58,10 @@ func (c *cache) flushScheduler() {
 		case <-tick.C:
 		}
 
+		if verifhook.Fault("writecache.flush.scheduler") != nil {
+			continue
+		}
+
 		if c.objCounters.Size() == 0 {
 			continue
 		}
